@@ -130,3 +130,6 @@ META = dict(
     assumptions=["gaps longer than the span bound are outside the claim (the fill loop runs once per missing bucket)"],
     explanation="library fill vs an independent reference fill on the same symbolic stream; contiguity, inserted-candle shape, equality with the no-fill run and schedule independence decided by z3 per path",
 )
+
+# families added after the seeding rounds (kept next to the original bound so that MANIFEST / evidence stay current)
+META["bounds"] = dict(META["bounds"], quick=META["bounds"]["quick"] + "; added after the seeding rounds: " + 'the fill flag through Indicator / Hexital / Hexital + member timeframe')
